@@ -65,7 +65,7 @@ Proof.
   - split.
     + apply allcalls_bind; [apply ac_set_read_only_once; assumption|]. intros [e|]; exact I.
     + split; [apply ac_kill_loop; assumption|exact I].
-  - intros rs. destruct rs as [|[h0 r] rs]; exact I.
+  - intros rs. match goal with |- allcalls _ (match ?x with _ => _ end) => destruct x as [[h0 r]|] end; exact I.
 Qed.
 
 Lemma ac_gns_fail h ns : P 2191 (Sql h SPing) -> allcalls P (gns_fail h ns).
